@@ -501,6 +501,15 @@ fn gen_hays(h_for_alphabet: &[&Hir], o: &Opts, rng: &mut Rng, thorough: bool) ->
         }
         hays.push(buf);
     }
+    // one long buffer (up to ~48 bytes): many lines, exercises leftmost search over several candidates
+    let mut long = vec![];
+    while long.len() < 36 {
+        long.extend_from_slice(&pickv(rng, &lines));
+        long.extend_from_slice(&term);
+    }
+    if long.len() <= 48 {
+        hays.push(long);
+    }
     hays.sort();
     hays.dedup();
     hays
@@ -594,9 +603,11 @@ fn matcher_checks(cx: &mut Ctx, b: &Built, o: &Opts, hays: &[Vec<u8>], extra_wor
     let (mut any_match, mut any_nonmatch) = (false, false);
     // engine vs denotation: one pipelined batch of requests for all short buffers
     let engine_ok = sx.len() < 30000;
+    // short buffers always; buffers up to 48 bytes when the HIR is small (cost of `ends` grows with both)
+    let max_hay = if sx.len() < 600 { 48 } else { 14 };
     let span_reqs: Vec<String> = hays
         .iter()
-        .filter(|h| engine_ok && h.len() <= 14)
+        .filter(|h| engine_ok && h.len() <= max_hay)
         .map(|h| format!("c11.spans {} {} {}", sx, hex(h), word))
         .collect();
     let mut span_replies = cx.drv.ask_all(&span_reqs).into_iter();
@@ -667,8 +678,11 @@ fn matcher_checks(cx: &mut Ctx, b: &Built, o: &Opts, hays: &[Vec<u8>], extra_wor
             cx.rep.branch(if best == Some(i) { "cand:eq-leftmost-literal" } else { "cand:differs-from-leftmost-literal" });
         }
         // engine vs denotation
-        if engine_ok && hay.len() <= 14 {
+        if engine_ok && hay.len() <= max_hay {
             let reply = span_replies.next().unwrap();
+            if hay.len() > 14 {
+                cx.rep.branch("engine:long-buffer");
+            }
             let spans: Vec<(usize, usize)> = if reply == "-" {
                 vec![]
             } else {
@@ -1221,7 +1235,7 @@ fn random_pattern(rng: &mut Rng, depth: usize) -> String {
             6 => "quux".into(),
             7 => r"\d{1,3}".into(),
             8 => r"[^\n]".into(),
-            9 => r"\.".into(),
+            9 => rng.pick(&[r"(a{2,3})", r"(\pL){1,2}", r"(?:(x)|y){2}", r"((a|b)c){1,3}", r"(?P<n>\d{2}){2}", r"(\p{Greek}{1,2}|é)+", r"([^\x00-\x7f]){2}", r"(a?){3}", r"(\w{2,4}?)\b", r"(?:a|(b))*c"]).to_string(),
             _ => rng.pick(ATOMS).to_string(),
         };
     }
